@@ -65,7 +65,7 @@ def run(chk) -> None:
     for c in appends:
         for n in cfg.nodes_of(enclosing_stmt(c)):
             gs = [t for t, lab in cfg.guards(n) if t.kind == "test" and any(t.ast is x for x in bn)]
-            chk.ob("C09.R1", "the event is appended only on the not-stale side of the comparison", bool(gs) and compares_snapshot([x for g in gs for x in ast.walk(g.ast.test)]), m=mc, node=c, fn=sr,
+            chk.ob("C09.R1", "the event is appended only on the not-stale side of the comparison", bool(gs) and compares_snapshot([x for g in gs for x in ast.walk(expand(g.ast.test, g.ast, depth=2, provenance=True))]), m=mc, node=c, fn=sr,
                    instance="stale-check:add-guards-append", reason="append not controlled by the snapshot comparison")
     # ---- the snapshot the comparison uses is the invocation's *current* one: the re-run arm re-binds <execution>.shared_state, so a
     # local captured from it earlier (before the result loop, or before the re-binding in the same iteration) is stale afterwards
@@ -103,7 +103,9 @@ def run(chk) -> None:
         ev = kwarg(c, "event")
         chk.ob("C09.R3", "the stale invocation is re-run with its own event", ev is not None and ast.unparse(ev) in (f"{rv}.event", "tick.event", "this_execution.event"), m=mc, node=c, fn=sr, instance="rerun:event", reason=f"event={ast.unparse(ev) if ev is not None else None}")
         refreshed = [s for s in bn if isinstance(s, ast.Assign) and ast.unparse(s.targets[0]).endswith(".shared_state")]
-        fresh = refreshed and "collected_events" in ast.unparse(expand(refreshed[0].value, refreshed[0], depth=2)) and ".workers[" in ast.unparse(expand(refreshed[0].value, refreshed[0], depth=2))
+        from ..astx import dep_slice
+        sl_ = dep_slice(sr, refreshed[0].value, stop=("this_execution",)) if refreshed else None
+        fresh = bool(refreshed) and any(".workers[" in ast.unparse(e_) and "collected_events" in ast.unparse(e_) for e_ in sl_.exprs)
         chk.ob("C09.R3", "the re-run sees the live buffer (snapshot refreshed from the reducer state)", bool(fresh), m=mc, node=c, fn=sr, instance="rerun:fresh-snapshot", reason="shared_state is not refreshed from the live collected_events")
 
     # ---------------------------------------------------------------- R2 collect_events on all small buffers
